@@ -28,6 +28,12 @@ AXIOM_ALLOW = {
 _tmpdirs = []
 
 
+def core_version():
+    """CARGO_PKG_VERSION of typeshare-core (printed in the generated headers)"""
+    m = re.search(r'^version\s*=\s*"([^"]+)"', (REPO / 'core' / 'Cargo.toml').read_text(), re.M)
+    return m.group(1) if m else ''
+
+
 def tmpdir(prefix='verif-'):
     d = tempfile.mkdtemp(prefix=prefix)
     _tmpdirs.append(d)
